@@ -3,7 +3,7 @@
     rules (Gen/Gen_Options.v).  The refutations are stated for the parse program / writer rules of
     the pinned tree ([pinned_prog], [pinned_wrules]): each is the reason for one fix: commit. *)
 From Coq Require Import List String ZArith Bool.
-From Inovesa Require Import Model.OptionsTypes Model.Options Gen.Gen_Options Proofs.OptionsP Proofs.OptionsThm Proofs.OptionsRT.
+From Inovesa Require Import Model.OptionsTypes Model.Options Gen.Gen_Options Proofs.OptionsP Proofs.OptionsThm Proofs.OptionsRT Proofs.OptionsRT2.
 Import ListNotations.
 Local Open Scope string_scope.
 
@@ -110,3 +110,130 @@ Example roundtrip_now :
   /\ member_after gen_prog gen_wrules [(Long "BeamEnergy", [100%Z])] (fun _ => FNoFile) "E_0" = (Some [100%Z], Some [100%Z])
   /\ member_after gen_prog gen_wrules [(Long "config", [9%Z])] (fun _ => FFile [("RFVoltage", [31%Z])]) "V_RF" = (Some [31%Z], Some [31%Z]).
 Proof. vm_compute. repeat split; reflexivity. Qed.
+
+(* ============================================================================================ *)
+(** * Second wave: the two run-time hypotheses of [save_reload_roundtrip_partial] are theorems *)
+
+(** Per-run reflection obligation of the second checker of the writer rules: the config option takes a
+    string and is no information switch; everything save() may write (not skipped, and alpha0 or a type
+    with a writer branch) is in the config-file description and typed. *)
+Theorem generated_rules_accepted_reload : checker13b gen_table gen_wrules gen_prog = true.
+Proof. vm_compute. reflexivity. Qed.
+Print Assumptions generated_rules_accepted_reload.
+
+(** The law about formatting and re-reading (ostream << / lexical_cast are glue), in two parts.
+    (a) For a token that was read, save() writes that token: with max_digits10 digits the written text
+        denotes the value it was made from. *)
+Theorem C13_fmt_reparse :
+  forall (W : wrules) round6 ty t, w_precise W = true -> fmtv W round6 ty t = t.
+Proof. exact fmt_reparse. Qed.
+Print Assumptions C13_fmt_reparse.
+
+(**  (b) [reparse_lawb T wf W]: what save() writes without a well-formed input token behind it - a default
+        of the table, the implicit `true` of a switch, the literal 0 of the alpha0 rule - is accepted as a
+        value of the option's type.  It is a hypothesis on the token oracle; the model driver evaluates it
+        for the oracle of every generated case.  Satisfiable, and not vacuous: with an oracle that refuses
+        the text "0", `inovesa -f <t42>` saves alpha0=0 and the saved file is not accepted. *)
+Example reparse_law_satisfiable : reparse_lawb gen_table wf_all gen_wrules = true.
+Proof. vm_compute. reflexivity. Qed.
+
+Example reload_needs_law :
+  let wf0 := fun (_ : cty) t => negb (Z.eqb t 0) in
+  reparse_lawb gen_table wf0 gen_wrules = false /\
+  match parse gen_table wf0 gen_prog [(Short "f", [42%Z])] (fun _ => FNoFile) FNoFile with
+  | Run s => reload gen_table wf0 gen_wrules zero_w round6_w gen_prog s 999%Z
+  | _ => Stop
+  end = Fail.
+Proof. vm_compute. split; reflexivity. Qed.
+
+(** Every entry of the variables map of a state that parse() returns is well formed for its option: a
+    scalar holds exactly one well-formed token, a vector at least one, all well formed (H0 of the partial
+    theorem: typed entries are never empty). *)
+Theorem C13_entries_wellformed :
+  forall (T : list opt) (P : prog) (W : wrules) wf, checker T P = true -> reparse_lawb T wf W = true ->
+  forall cli fs dflt s, parse T wf P cli fs dflt = Run s ->
+  forall n e, s_vm s n = Some e -> exists o, find_opt T n = Some o /\ vals_ok wf o (fst e) = true.
+Proof. intros T P W wf CK LAW cli fs dflt s H. exact (parse_vm_ok T wf W LAW P cli fs dflt s CK H). Qed.
+Print Assumptions C13_entries_wellformed.
+
+(** The saved file is accepted: it holds only names of the config-file description, one line per scalar
+    option, tokens that are well formed for their option. *)
+Theorem C13_reload_runs :
+  forall (T : list opt) (P : prog) (W : wrules) (ex : list string),
+  checker T P = true -> checker13 T W P ex = true -> checker13b T W P = true ->
+  forall wf zerotok round6, reparse_lawb T wf W = true ->
+  forall cli fs dflt s ftok, parse T wf P cli fs dflt = Run s -> wf TString ftok = true ->
+  exists s', reload T wf W zerotok round6 P s ftok = Run s'.
+Proof.
+  intros T P W ex CK C13 C13b wf z r LAW cli fs dflt s ftok H Wf.
+  exact (reload_runs T wf W z r LAW P ex cli fs dflt s ftok CK C13 C13b H Wf).
+Qed.
+Print Assumptions C13_reload_runs.
+
+(** C13.1.  For every table/program/rules accepted by the checkers, every token oracle that satisfies the
+    re-reading law, every invocation for which parse() runs, and every name [ftok] of the saved file that
+    is a string: `--config <saved>` runs, and every current typed option outside [exempt] has the member
+    value it had originally - for the option the alpha0 rule is about under the hypothesis, stated on the
+    original invocation, that the rule does not fire: the value in force (command line > file > legacy
+    name > default) of the option bound to the rule's variable denotes zero / non-zero as the rule's
+    polarity says ([zero_in_force]).  The rule itself is by design of save(): with a synchrotron frequency
+    alpha0 is not used (main.cpp) and is written as 0. *)
+Theorem C13_save_reload_roundtrip :
+  forall (T : list opt) (P : prog) (W : wrules) (ex : list string),
+  checker T P = true -> checker13 T W P ex = true -> checker13b T W P = true ->
+  forall wf zerotok round6, reparse_lawb T wf W = true ->
+  forall cli fs dflt s ftok items,
+  parse T wf P cli fs dflt = Run s -> resolve_all T cli = Some items -> wf TString ftok = true ->
+  exists s', reload T wf W zerotok round6 P s ftok = Run s' /\
+    forall o, In o T -> is_canon o = true -> typed o = true -> mem (o_name o) ex = false ->
+      (o_name o <> w_alpha_name W
+       \/ exists ofs, In ofs T /\ is_canon ofs = true /\ typed ofs = true /\ o_var ofs = w_alpha_var W
+                      /\ Bool.eqb (zero_in_force T zerotok P items (loaded T P items fs dflt) ofs) (w_alpha_when_zero W) = false) ->
+      s_vars s' (o_var o) = s_vars s (o_var o).
+Proof.
+  intros T P W ex CK C13 C13b wf z r LAW cli fs dflt s ftok items H RA Wf.
+  exact (roundtrip_full T wf W z r LAW P ex cli fs dflt s ftok items CK C13 C13b H RA Wf).
+Qed.
+Print Assumptions C13_save_reload_roundtrip.
+
+(** The same for the polarity of the current tree (alpha0=0 is written when the synchrotron frequency is
+    non-zero): the option is not alpha0, or no synchrotron frequency was given - the option bound to the
+    rule's variable is neither on the command line nor in the loaded file under its current or legacy
+    name - and its default denotes zero. *)
+Theorem C13_save_reload_roundtrip_no_fs :
+  forall (T : list opt) (P : prog) (W : wrules) (ex : list string),
+  checker T P = true -> checker13 T W P ex = true -> checker13b T W P = true -> w_alpha_when_zero W = false ->
+  forall wf zerotok round6, reparse_lawb T wf W = true ->
+  forall cli fs dflt s ftok items,
+  parse T wf P cli fs dflt = Run s -> resolve_all T cli = Some items -> wf TString ftok = true ->
+  exists s', reload T wf W zerotok round6 P s ftok = Run s' /\
+    forall o, In o T -> is_canon o = true -> typed o = true -> mem (o_name o) ex = false ->
+      (o_name o <> w_alpha_name W
+       \/ exists ofs d, In ofs T /\ is_canon ofs = true /\ typed ofs = true /\ o_var ofs = w_alpha_var W
+                        /\ occurs (o_name ofs) items = false
+                        /\ occurs (o_name ofs) (loaded T P items fs dflt) = false
+                        /\ (forall a, alias_of (prog_aliases P) (o_name ofs) = Some a -> occurs a (loaded T P items fs dflt) = false)
+                        /\ o_defcli ofs = Some d /\ zerotok d = true) ->
+      s_vars s' (o_var o) = s_vars s (o_var o).
+Proof.
+  intros T P W ex CK C13 C13b WZ wf z r LAW cli fs dflt s ftok items H RA Wf.
+  exact (roundtrip_no_fs T wf W z r LAW P ex cli fs dflt s ftok items CK C13 C13b WZ H RA Wf).
+Qed.
+Print Assumptions C13_save_reload_roundtrip_no_fs.
+
+(** the hypotheses are satisfiable on the generated table: `inovesa --alpha0 <t41> -I <t21> <t22>` (no
+    synchrotron frequency: its default denotes zero) - the reload runs and alpha0, the bunch currents
+    and the grid size come back *)
+Example roundtrip_no_fs_example :
+  w_alpha_when_zero gen_wrules = false /\
+  (exists ofs d, find_opt gen_table "SynchrotronFrequency" = Some ofs /\ o_var ofs = w_alpha_var gen_wrules
+                 /\ o_defcli ofs = Some d /\ zero_w d = true) /\
+  match parse gen_table wf_all gen_prog [(Long "alpha0", [41%Z]); (Short "I", [21%Z; 22%Z])] (fun _ => FNoFile) FNoFile with
+  | Run s => match reload gen_table wf_all gen_wrules zero_w round6_w gen_prog s 999%Z with
+             | Run r => (s_vars r "alpha0", s_vars r "I_b", s_vars r "meshsize") = (s_vars s "alpha0", s_vars s "I_b", s_vars s "meshsize")
+                        /\ s_vars r "alpha0" = Some [41%Z]
+             | _ => False
+             end
+  | _ => False
+  end.
+Proof. vm_compute. repeat split; try reflexivity. eexists. eexists. repeat split; reflexivity. Qed.
